@@ -234,28 +234,55 @@ func c01Unary(c *Ctx) {
 			return true
 		}
 		found[tok] = true
-		gotOp, operandCall := "", ""
-		for _, st := range cc.Body {
-			ast.Inspect(st, func(m ast.Node) bool {
-				switch x := m.(type) {
-				case *ast.CompositeLit:
-					if exprStr(x.Type) == "UnaryOpExpr" {
-						for _, el := range x.Elts {
-							if kv, ok := el.(*ast.KeyValueExpr); ok && exprStr(kv.Key) == "Op" {
-								gotOp = exprStr(kv.Value)
+		var scan func(stmts []ast.Stmt, bind map[string]string, depth int) (string, string)
+		scan = func(stmts []ast.Stmt, bind map[string]string, depth int) (gotOp, operandCall string) {
+			var helper *ast.CallExpr
+			for _, st := range stmts {
+				ast.Inspect(st, func(m ast.Node) bool {
+					switch x := m.(type) {
+					case *ast.CompositeLit:
+						if exprStr(x.Type) == "UnaryOpExpr" {
+							for _, el := range x.Elts {
+								if kv, ok := el.(*ast.KeyValueExpr); ok && exprStr(kv.Key) == "Op" {
+									gotOp = exprStr(kv.Value)
+									if b, ok := bind[gotOp]; ok {
+										gotOp = b
+									}
+								}
+							}
+						}
+					case *ast.CallExpr:
+						if sel, ok := x.Fun.(*ast.SelectorExpr); ok && (strings.HasPrefix(sel.Sel.Name, "parse") || sel.Sel.Name == "ParseExpression") {
+							if len(x.Args) > 0 && helper == nil {
+								helper = x // a parse helper that is handed the operation
+							} else if operandCall == "" && len(x.Args) == 0 {
+								operandCall = sel.Sel.Name
 							}
 						}
 					}
-				case *ast.CallExpr:
-					if sel, ok := x.Fun.(*ast.SelectorExpr); ok && strings.HasPrefix(sel.Sel.Name, "parse") || (ok && sel.Sel.Name == "ParseExpression") {
-						if operandCall == "" {
-							operandCall = sel.Sel.Name
+					return true
+				})
+			}
+			if gotOp == "" && helper != nil && depth < 2 {
+				// the arm delegates to a helper: look into it with its parameters bound to the arguments
+				name := helper.Fun.(*ast.SelectorExpr).Sel.Name
+				if hd, _ := c.P.LookupDecl("hclsyntax", "parser."+name); hd != nil && hd.Body != nil {
+					b2 := map[string]string{}
+					k := 0
+					for _, f := range hd.Type.Params.List {
+						for _, nm := range f.Names {
+							if k < len(helper.Args) {
+								b2[nm.Name] = exprStr(helper.Args[k])
+							}
+							k++
 						}
 					}
+					return scan(hd.Body.List, b2, depth+1)
 				}
-				return true
-			})
+			}
+			return gotOp, operandCall
 		}
+		gotOp, operandCall := scan(cc.Body, nil, 0)
 		c.Check(gotOp == op, "unary", "hclsyntax.parser.parseExpressionTerm:arm["+tok+"].op", cc.Pos(), gotOp, fmt.Sprintf("the %s arm builds a unary expression with %s, not %s", tok, gotOp, op))
 		c.Check(operandCall == "parseExpressionWithTraversals", "unary", "hclsyntax.parser.parseExpressionTerm:arm["+tok+"].operand", cc.Pos(), "operand = term with traversals",
 			fmt.Sprintf("the operand of unary %s is parsed with %s: a following binary operator is captured by the unary operator (-a+b parses as -(a+b))", tok, operandCall))
